@@ -24,9 +24,29 @@ def known_match(f, sc):
     return None
 
 
+class _Phys:
+    """second phase: the real binary on ids that run through one another's directories (direct layouts) and on explicit
+    object roots (no layout); the whole tree is validated after every operation, the refused ones included"""
+    BUDGET = {"quick": dict(histories=30, ops=12, seconds=45), "thorough": dict(histories=400, ops=22, seconds=600)}
+    CORRESPONDENCE = "n/a (oracle-only phase)"
+    HISTORY_KW = dict(layouts=["0002-flat-direct-storage-layout", "0002-flat-direct-storage-layout", "none", "0006-flat-omit-prefix-storage-layout",
+                               "0003-hash-and-id-n-tuple-storage-layout"],
+                      ids=[["a", "a/b/c", "a/b", "z"], ["p", "p/v1/content/sub/q", "p/v1/x/y", "q"], ["coll/2024/rep1", "coll", "coll/2024/rep1/v1/content/deep/er"],
+                           ["x1", "x2", "x3"], ["ns:one", "ns:one/two/three", "ns:two"]],
+                      hostile_roots=["objects/a", "objects/a/b/c", "objects/a/v1/content/deep/x", "plain", "objects/b/extra/levels"],
+                      weights=[30, 3, 6, 3, 4, 2, 1, 40, 6, 2], trace=False)
+
+    @staticmethod
+    def make_oracles():
+        from vlib import physprop
+        return [physprop.AllValid()]
+
+
 def run(rep, tier, seed, proof_broken=False):
     import vlib.props.C01 as me
     histprop.run(rep, me, tier, seed, proof_broken)
+    from vlib import physprop
+    physprop.run(rep, _Phys, tier, seed + 11, proof_broken)
 
 
 def replay(rep, payload):
